@@ -14,12 +14,13 @@ def build(build_dir):
             ('handle_mgr/HandleManager.cpp', 'handle_mgr/Handle.cpp', 'common/MutexFactory.cpp', 'common/osmutex.cpp')]
     deps = srcs + [os.path.join(LIB, p) for p in ('handle_mgr/HandleManager.h', 'handle_mgr/Handle.h', 'common/MutexFactory.h')]
     key = vlib.file_hash(deps)
-    if not (os.path.exists(dst) and os.path.exists(dst + '.key') and open(dst + '.key').read() == key):
-        inc = ['-I' + build_dir] + ['-I' + os.path.join(LIB, d) for d in ('', 'common', 'handle_mgr', 'pkcs11')]
-        rc, o, e = vlib.sh(['g++', '-O1', '-std=c++11', '-o', dst] + srcs + inc + ['-lpthread'], timeout=300)
-        if rc != 0:
-            raise RuntimeError('hmdrv build failed: ' + e[-2000:])
-        open(dst + '.key', 'w').write(key)
+    with vlib.Lock('hmdrv'):
+      if not (os.path.exists(dst) and os.path.exists(dst + '.key') and open(dst + '.key').read() == key):
+          inc = ['-I' + build_dir] + ['-I' + os.path.join(LIB, d) for d in ('', 'common', 'handle_mgr', 'pkcs11')]
+          rc, o, e = vlib.sh(['g++', '-O1', '-std=c++11', '-o', dst] + srcs + inc + ['-lpthread'], timeout=300)
+          if rc != 0:
+              raise RuntimeError('hmdrv build failed: ' + e[-2000:])
+          open(dst + '.key', 'w').write(key)
     return dst
 
 
@@ -64,7 +65,7 @@ def run(build_dir, seed, n):
     bad = []
     if rc != 0 or len(lines) != len(seqs):
         return {'sequences': 0, 'error': 'hmdrv rc=%s %s' % (rc, err[-300:])}, [{'ops': [], 'impl': out[-300:], 'why': 'driver failed'}]
-    work = os.path.join(vlib.CACHE, 'khandle')
+    work = os.path.join(vlib.CACHE, 'khandle', str(os.getpid()))
     os.makedirs(work, exist_ok=True)
     body = ['From Coq Require Import List NArith Bool.', 'From SoftHSM Require Import HandleLife.', 'Import ListNotations.',
             'Local Open Scope N_scope.',
@@ -104,6 +105,8 @@ def run(build_dir, seed, n):
     for ops in seqs:
         for o in ops:
             kinds[o[0]] = kinds.get(o[0], 0) + 1
+    import shutil
+    shutil.rmtree(work, ignore_errors=True)
     cov = {'sequences': len(seqs), 'ops': sum(kinds.values()), 'ops_by_kind': kinds, 'sequences_meeting_the_mismatch_branch': reuse,
            'compared': 'every returned value, the set of live handle values (getSession / getObject probes over 1..max+2) and the next fresh handle',
            'model_run_by': 'coqc vm_compute (one Example per sequence)'}
